@@ -19,9 +19,10 @@ META = {
         "known_types = SUPPORTED_TYPES + tuple(config.serialize_handlers) computed from the live handler table in the "
         "same call; C20.6 Config.copy(), used for every 1.0 request on a 2.0 server, carries serialize_method, "
         "ignore_attribute and the handlers; C20.7 every constructor receiving a config hands that very object to the package "
-        "constructors it calls (a server or transport never falls back to the DEFAULT handlers / method names)."),
+        "constructors it calls (a server or transport never falls back to the DEFAULT handlers / method names). C20.8 (imported from C07.7 / C15.3) long-lived servers and proxies keep the caller's Config object itself, so handlers and names configured after construction are the ones consulted; the folded type tables equal the spec, so a field of an unsupported type (complex, ...) is omitted rather than emitted raw."),
     "does_not_decide": "the dumped values themselves.",
-    "rules": {"C20.1": "dominance + provenance", "C20.2": "provenance at recursive call sites", "C20.3": "provenance term shape + dominance",
+    "rules": {"C20.8": "imported C07.7 (config object provenance), C15.3 (type tables)",
+              "C20.1": "dominance + provenance", "C20.2": "provenance at recursive call sites", "C20.3": "provenance term shape + dominance",
               "C20.4": "provenance + package-wide literal scan", "C20.5": "dominating guard + provenance", "C20.6": "sibling agreement (shared with C13.2)",
               "C20.7": "provenance of the config argument at constructor-to-constructor call sites"},
     "assumptions": [],
@@ -181,3 +182,9 @@ def check(ck):
     common.check_config_forwarding(ck, "C20.7")
     ck.floor("C20.7", 6)
     common.check_config_defaults(ck, "C20.7", ("serialize_method", "ignore_attribute", "serialize_handlers"))
+
+    # ---- C20.8 configuration object and type tables (shared with C07.7 / C15.3) ------------------------------------------------
+    from rules import c07 as _c07k, c15 as _c15k
+    common.import_rules(ck, _c07k.rule_c07_7, {"C07.7": "C20.8"})
+    common.import_rules(ck, _c15k.rule_c15_3, {"C15.3": "C20.8"})
+    ck.floor("C20.8", 12)
